@@ -102,7 +102,7 @@ PROPS["C14"] = dict(
 PROPS["C13"] = dict(
     level="other",
     explanation="writer.Sink.Process executed symbolically with an io.Writer stub returning symbolic (n, err) incl. short writes, arbitrary format tables (<=F entries) and configured format: success only after exactly one Write of exactly the configured format's bytes under the sink's lock; error otherwise. (bytes.Reader.WriteTo is the standard library's code transcribed as a Go model over opaque content.)",
-    jobs=[dict(pkg="./sinks/writer", harness=["sinks/writer.go"], entries=r"^H_C13_writer", params=dict(quick=dict(F=2), thorough=dict(F=3))),
+    jobs=[dict(pkg="./sinks/writer", harness=["sinks/writer.go", "sinks/writer_c19.go"], entries=r"^H_C13_writer|^H_C19_writer_pairs$", params=dict(quick=dict(F=2), thorough=dict(F=3))),
           dict(pkg="./sinks/channel", harness=["sinks/channel.go"], entries=r"^H_C13_channel", params=dict(quick={}, thorough={}))],
     must_reach=["C13.writer.rejected", "C13.writer.ok", "C13.writer.failed", "C13.channel.ok", "C13.channel.error"],
     bounds=dict(quick="<=2 formats", thorough="<=3 formats"),
@@ -181,9 +181,9 @@ ENC_DIR = "/repo/filters/encrypt"
 PROPS["C16"] = dict(
     level="other",
     explanation="Filter.encrypt, Filter.hmacSha256, Rotate, the rotation-payload branch of Process, NewEventWrapper, NewDerivedReader and derivedKeyId executed symbolically with every cryptographic leaf (aead.Wrapper Encrypt/KeyBytes/KeyId, hkdf.New, io.ReadFull of the derived reader, hmac, ed25519.GenerateKey, proto.Marshal, base64) an uninterpreted deterministic function of its inputs: the output must be exactly enc / HMAC under the wrapper, salt and info in force (per-event values first), Rotate / rotation payloads install the new material (copied, not aliased) and the next value uses it; the per-event wrapper is a function of (filter wrapper key, event id) only.",
-    jobs=[dict(dir=ENC_DIR, harness=ENC_H, entries=r"^H_C16_(encrypt|hmac|rotate|event_wrapper)$", params=dict(quick={}, thorough={}), shards=dict(quick=4, thorough=8)),
+    jobs=[dict(dir=ENC_DIR, harness=ENC_H, entries=r"^H_C16_(encrypt|hmac|rotate|event_wrapper|event_id_across_rotation)$", params=dict(quick={}, thorough={}), shards=dict(quick=4, thorough=8)),
           dict(dir=ENC_DIR, harness=ENC_H, entries=r"^H_C16_process_vs_rotate$", params=dict(quick={}, thorough={}), shards=dict(quick=4, thorough=8), maxswitches=dict(quick=3, thorough=5), instrument_locks=True)],
-    must_reach=["C16.encrypt.ok", "C16.encrypt.rejected", "C16.hmac.ok", "C16.hmac.rejected", "C16.rotate.end", "C16.eventwrapper.ok", "C16.eventwrapper.rejected", "C16.rotation.end"],
+    must_reach=["C16.encrypt.ok", "C16.encrypt.rejected", "C16.hmac.ok", "C16.hmac.rejected", "C16.rotate.end", "C16.eventwrapper.ok", "C16.eventwrapper.rejected", "C16.rotation.end", "C16.eventid.end"],
     bounds=dict(quick="salt/info nil or 0..2 arbitrary bytes; data any string", thorough="same"),
     assumptions=["AES-GCM decrypts to the plaintext, HKDF and HMAC-SHA256 compute the standard functions, ed25519 key derivation: trusted primitives (uninterpreted)", "concurrent rotation: see the lockset/interleaving jobs"],
     trusted_base=COMMON_TRUST + ["engine/symex/cryptomodel.go contracts"],
